@@ -53,7 +53,8 @@ CONF = {
     "id": "C12", "family": "CgroupTree",
     "mc": [
         {"module": "MC_CgroupTree", "cfg": {"quick": "MC_quick.cfg", "thorough": "MC_quick.cfg"}, "timeout": 900},
-        {"module": "MC_CgroupTree", "cfg": {"quick": "MC_chain.cfg", "thorough": "MC_chain.cfg"}, "timeout": 900},
+        # coverage on the small chain model: every design action (IMerge IExact SWiden SNarrow IDone) must have been taken
+        {"module": "MC_CgroupTree", "cfg": {"quick": "MC_chain.cfg", "thorough": "MC_chain.cfg"}, "timeout": 900, "coverage": True},
         {"module": "MC_CgroupTree", "cfg": {"quick": None, "thorough": "MC_n4.cfg"}, "timeout": 1800, "workers": 8},
         {"module": "MC_CgroupTree", "cfg": {"quick": None, "thorough": "MC_cpu4.cfg"}, "timeout": 1800, "workers": 8},
     ],
